@@ -126,6 +126,7 @@ MarkFull(l, F) ==
 Missing(F) == UnionOf({f \in F : lst[f] # 2}, Span) \ fetched
 Servable(f) == lst[f] = 2 \/ Span(f) \subseteq fetched
 
+BgFiles == IF BgAllFiles THEN Files ELSE {f \in Files : lst[f] # 1}      \* files background fetch caches
 PfPrio == pf \in {"ranged", "thresh", "stalled", "fetched", "finishing"}   \* Prefetch holds a prioritized task
 Held == pf = "stalled" \/ bg = "stalled"                                      \* a request is held back by the registry
 
@@ -188,10 +189,10 @@ BlobCacheG(r, got, rq) ==
         /\ IF r = "ok"
            THEN /\ need \subseteq got /\ got \subseteq Hull(need)
                 /\ fetched' = fetched \cup got
-                /\ pf' = "fetched" /\ pinfo' = psize /\ UNCHANGED pfres
-           ELSE /\ pf' = "finishing" /\ pfres' = "fail" /\ UNCHANGED <<fetched, pinfo>>
+                /\ pf' = "fetched" /\ UNCHANGED pfres
+           ELSE /\ pf' = "finishing" /\ pfres' = "fail" /\ UNCHANGED fetched
         /\ last' = [act |-> "BlobCache", r |-> r, req |-> rq]
-    /\ UNCHANGED <<sc, pc, runner, psize, waiter, wc, bc, brunner, bg, bgres, prio, lst, reg>>
+    /\ UNCHANGED <<sc, pc, runner, psize, pinfo, waiter, wc, bc, brunner, bg, bgres, prio, lst, reg>>
 BlobCache(r) == BlobCacheG(r, Cover(psize) \ fetched, IF pf = "stalled" THEN {} ELSE Cover(psize) \ fetched)
 
 \* bounds for a walk over the files F that decompresses and caches them
@@ -215,19 +216,30 @@ ReaderCacheG(r, got, l2, rq) ==
         /\ lst' = l2
         /\ last' = [act |-> "ReaderCache", r |-> r, req |-> rq]
     /\ pf' = "finishing"
-    /\ UNCHANGED <<sc, pc, runner, psize, pinfo, waiter, wc, bc, brunner, bg, bgres, prio, reg>>
+    /\ pinfo' = psize                      \* l.prefetchSize is set between blob.Cache and verifiableReader.Cache
+    /\ UNCHANGED <<sc, pc, runner, psize, waiter, wc, bc, brunner, bg, bgres, prio, reg>>
 ReaderCache(r) ==
     LET F == RangeFiles(psize) IN
     IF r = "ok" THEN ReaderCacheG(r, Missing(F), MarkFull(lst, F), Missing(F))
     ELSE ReaderCacheG(r, {}, MarkFull(lst, {f \in F : Servable(f)}), Missing(F))
 
-PrefetchEnd ==
+\* DonePrioritizedTask: a background fetch that was cancelled starts its bodies again once no prioritized task is
+\* left; it caches what it can get without the registry (l2, bounded by BgResumeOK) and its requests are held again
+BgResumes(stillPrio) == bg = "suspended" /\ ~stillPrio
+BgResumeOK(l2, resumes) == IF resumes THEN Monotone(l2, BgFiles) ELSE l2 = lst
+BgLocal == MarkFull(lst, {f \in BgFiles : Servable(f)})        \* canonical outcome: every file servable locally is cached
+
+PrefetchEndG(l2) ==
     /\ pf = "finishing"
     /\ pf' = "end"
     /\ waiter' = IF pfres = "ok" \/ CloseOnFailure THEN "closed" ELSE waiter
     /\ pc' = [pc EXCEPT ![runner] = "ret"]
-    /\ UNCHANGED <<sc, runner, pfres, psize, pinfo, wc, bc, brunner, bg, bgres, prio, fetched, lst, reg>>
+    /\ BgResumeOK(l2, BgResumes(prio > 0))
+    /\ lst' = l2
+    /\ bg' = IF BgResumes(prio > 0) THEN "stalled" ELSE bg
+    /\ UNCHANGED <<sc, runner, pfres, psize, pinfo, wc, bc, brunner, bgres, prio, fetched, reg>>
     /\ last' = [act |-> "PrefetchEnd", p |-> runner, res |-> pfres, req |-> {}]
+PrefetchEnd == PrefetchEndG(IF BgResumes(prio > 0) THEN BgLocal ELSE lst)
 
 \* a caller that lost the Once: Do returns once the winner's function has returned; its err stays nil
 PrefetchReturn(p) ==
@@ -250,16 +262,17 @@ WaitReturn(w) ==
     /\ UNCHANGED <<sc, pc, runner, pf, pfres, psize, pinfo, waiter, bc, brunner, bg, bgres, prio, fetched, lst, reg>>
     /\ last' = [act |-> "WaitReturn", w |-> w, res |-> "ok", req |-> {}]
 
+\* the timer of this call has expired. select picks among ready cases at random, so the timeout branch can be taken
+\* even if the waiter has been closed meanwhile (by the end of prefetch or by another caller's timeout)
 WaitTimeout(w) ==
     /\ WaitHonoursTimeout
-    /\ wc[w] = "waiting" /\ waiter = "open"
+    /\ wc[w] = "waiting"
     /\ wc' = [wc EXCEPT ![w] = "timeout"]
     /\ waiter' = "closed"                                  \* the timeout branch calls w.done()
     /\ UNCHANGED <<sc, pc, runner, pf, pfres, psize, pinfo, bc, brunner, bg, bgres, prio, fetched, lst, reg>>
     /\ last' = [act |-> "WaitTimeout", w |-> w, res |-> "timeout", req |-> {}]
 
 \* -------------------------------------------------------- background fetch
-BgFiles == IF BgAllFiles THEN Files ELSE {f \in Files : lst[f] # 1}
 BgMayRun == prio = 0 /\ ~PfPrio
 
 BgCall(b) ==
@@ -270,12 +283,16 @@ BgCall(b) ==
     /\ UNCHANGED <<sc, pc, runner, pf, pfres, psize, pinfo, waiter, wc, bgres, prio, fetched, lst, reg>>
     /\ last' = [act |-> "BgCall", b |-> b, won |-> (bg = "none"), req |-> {}]
 
-BgStall ==
+\* the walk has begun: what is servable without the registry gets cached, the first requests are out and unanswered
+BgStallG(l2) ==
     /\ bg = "started" /\ BgMayRun /\ ~Held
     /\ Missing(BgFiles) # {}
     /\ bg' = "stalled"
-    /\ UNCHANGED <<sc, pc, runner, pf, pfres, psize, pinfo, waiter, wc, bc, brunner, bgres, prio, fetched, lst, reg>>
+    /\ Monotone(l2, BgFiles)
+    /\ lst' = l2
+    /\ UNCHANGED <<sc, pc, runner, pf, pfres, psize, pinfo, waiter, wc, bc, brunner, bgres, prio, fetched, reg>>
     /\ last' = [act |-> "BgStall", req |-> {}]
+BgStall == BgStallG(BgLocal)
 
 BgFinishG(r, got, l2, rq) ==
     /\ bg \in {"started", "stalled", "suspended"} /\ BgMayRun
@@ -312,11 +329,15 @@ PrioBegin ==
     /\ UNCHANGED <<sc, pc, runner, pf, pfres, psize, pinfo, waiter, wc, bc, brunner, bgres, fetched, lst, reg>>
     /\ last' = [act |-> "PrioBegin", req |-> {}]
 
-PrioEnd ==
+PrioEndG(l2) ==
     /\ prio = 1
     /\ prio' = 0
-    /\ UNCHANGED <<sc, pc, runner, pf, pfres, psize, pinfo, waiter, wc, bc, brunner, bg, bgres, fetched, lst, reg>>
+    /\ BgResumeOK(l2, BgResumes(PfPrio))
+    /\ lst' = l2
+    /\ bg' = IF BgResumes(PfPrio) THEN "stalled" ELSE bg
+    /\ UNCHANGED <<sc, pc, runner, pf, pfres, psize, pinfo, waiter, wc, bc, brunner, bgres, fetched, reg>>
     /\ last' = [act |-> "PrioEnd", req |-> {}]
+PrioEnd == PrioEndG(IF BgResumes(PfPrio) THEN BgLocal ELSE lst)
 
 \* ------------------------------------------------------------------- reads
 ReadG(f, ok, got, l2, rq) ==
@@ -391,7 +412,7 @@ ConfiguredSizeCapped ==
     /\ (sc.lm = "none" /\ psize # -1) => psize = Min(sc.cfg, sc.size)
     /\ (sc.lm = "prefetch" /\ psize # -1) => psize = sc.loff
     /\ pinfo <= sc.size
-    /\ (sc.lm # "noprefetch" /\ pf \in {"fetched", "end"} /\ pfres # "fail" /\ pinfo > 0) => Cover(Expected) \subseteq fetched
+    /\ (sc.lm # "noprefetch" /\ pinfo > 0) => (pinfo = Expected /\ Cover(Expected) \subseteq fetched)
 
 \* ... and nothing but the range and the files whose first chunk lies in it is requested by prefetch
 PrefetchTrafficConfined ==
